@@ -537,6 +537,10 @@ func (m *DenseFloat64Matrix) Import(filename string) error {
       continue
     }
     fields := strings.Fields(l)
+    if len(fields) == 0 {
+      // line consists of white space only
+      continue
+    }
     if cols == 0 {
       cols = len(fields)
     }
